@@ -253,6 +253,14 @@ theorem no_fragment_full_fails : ¬ no_fragment_full := by
   simp only [stored, Nat.zero_add] at hs
   omega
 
+/-- non-vacuity of `write_call_counts_stored` and `no_fragment_partial` (the witness of the finding meets their hypotheses) -/
+example : ∃ d, stored (writeTail tO tH [] .s16 false 4 [1, 2, 3, 4]).hist = stored ([] : Hist) + d ∧
+    (writeTail tO tH [] .s16 false 4 [1, 2, 3, 4]).out.ret = ((d / tH.nb / tH.ch * tH.ch : Nat) : Int) ∧
+    (writeTail tO tH [] .s16 false 4 [1, 2, 3, 4]).h.wpos = tH.wpos + ((d / tH.nb / tH.ch : Nat) : Int) :=
+  write_call_counts_stored tO tO_contract tH [] .s16 4 [1, 2, 3, 4] (by decide) (by decide)
+example : ∃ d, stored (writeTail tO tH [] .s16 false 4 [1, 2, 3, 4]).hist = stored ([] : Hist) + d ∧
+    (¬ KF.tornItem d tH.nb tH.ch → ((d : Nat) : Int) = (writeTail tO tH [] .s16 false 4 [1, 2, 3, 4]).out.ret * (tH.nb : Int)) :=
+  no_fragment_partial tO tO_contract tH [] .s16 4 [1, 2, 3, 4] (by decide) (by decide) torn_item_witness.2.1
 example : KF.tornItem 7 2 1 := by unfold KF.tornItem; decide
 example : ¬ KF.tornItem 8191 2 2 := by unfold KF.tornItem; decide      -- 4095 items, two channels: the item count is rounded and the next call seeks
 example : KF.tornItem 8191 2 3 := by unfold KF.tornItem; decide        -- 4095 items = 1365 frames of three channels: nothing re-aligns
